@@ -159,9 +159,11 @@ CHECKS["C11"] = dict(
          "nothing to encrypt / input failing part-way / input with nothing to encrypt at all x environment change), plus strace-injected faults at the key-file write. Every behaviour is replayed through the real CLI as an unprivileged user with real files; after "
          "every run key-file bytes, mode, exit status and output are judged, every ciphertext is decrypted with the real Decrypt under the key on "
          "disk, generated keys are compared pairwise; strace'd runs are validated as KeyFile behaviours (KeyFileTrace), observing that the key "
-         "reaches the disk before the first ciphertext.",
+         "reaches the disk before the first ciphertext. Beyond the bound: spec/proofs/KeyFileProofs.tla is checked by the TLA+ proof system (tlapm) on every run - "
+         "the inductive invariant KInv implies KeyBeforeCiphertext, UnusableRefused and SuccessHasKey after ANY number of runs with any environment change in "
+         "between, and NeverOverwrite / CreateOnce hold of every program step; stat faults (EIO / EACCES at the existence test of a valid key) are injected with strace.",
     design="5 C11", note=L2_NOTE,
-    technique="TLA+ key-file life-cycle spec model-checked by TLC; every run sequence replayed with real files through the CLI (unprivileged); strace trace validation of write order")
+    technique="TLA+ key-file life-cycle spec model-checked by TLC and proved inductive with tlapm (unbounded runs); every run sequence replayed with real files through the CLI (unprivileged); strace trace validation of write order and strace fault injection")
 
 CHECKS["C18"] = dict(
     level="model_checking",
@@ -189,7 +191,9 @@ CHECKS["C16"] = dict(
          "many concretisations (ports, empty / multi-member archives, chunked responses, a download that breaks off once, window given / default - "
          "also in a local zone with a recent UTC-offset change, five flag sets incl. --encrypt): CONNECT only to "
          "cloud.mongodb.com:443, one authenticated request per host in connection-string order, project / host / window in every URL, bytes stored "
-         "verbatim, <out>.<i> byte-identical to the CLI's redaction of archive i; request histories validated against the spec (AtlasTrace).",
+         "verbatim, <out>.<i> byte-identical to the CLI's redaction of the log text of host i; request histories validated against the spec (AtlasTrace). "
+         "The window computation is a state machine of its own (spec/Window.tla: the two setters, the clock, GetStartAndEndDates with its write-back into the "
+         "options; GivenIsVerbatim, DefaultIsLastWeek, FirstCallIsPure; the deviation Sticky is named): every behaviour of the bounded model is replayed on the real functions.",
     design="5 C16", note=ATLAS_NOTE,
     technique="TLA+ spec of the download / redaction loop model-checked by TLC; replay on the unmodified CLI behind a fake Atlas endpoint; request-log and output judges; trace validation")
 
@@ -199,9 +203,11 @@ CHECKS["C17"] = dict(
          "status, reset before headers, body cut after j bytes, payload not gzip, over-long line, damaged archive, output path that cannot be "
          "created, or created but not written; --encrypt with an unusable key file: KeyStageFirst) + success, at CLI and library level. Every terminal state is replayed (several concretisations; thorough: every cut offset) with a "
          "private TMPDIR that is listed at every request - while the client is blocked - and after the process has gone; verdict: the directory is "
-         "empty at the end; the (request, temp-count) histories are validated as Atlas behaviours by TLC (AtlasTrace).",
+         "empty at the end; the (request, temp-count) histories are validated as Atlas behaviours by TLC (AtlasTrace). Beyond the bound: "
+         "spec/proofs/AtlasProofs.tla is checked by the TLA+ proof system (tlapm) on every run - TempInv is inductive for AtlasNext and implies NoTempAtExit for ANY "
+         "number of hosts, server behaviour and fault position (incl. a temp directory in which no file can be created, fault sequences met by a retrying client).",
     design="5 C17", note=ATLAS_NOTE,
-    technique="TLC-enumerated fault positions of the Atlas spec replayed on the unmodified CLI and the library against a fake endpoint; temp-directory snapshots; trace validation")
+    technique="TLC-enumerated fault positions of the Atlas spec (NoTempAtExit also proved inductive with tlapm for any number of hosts) replayed on the unmodified CLI and the library against a fake endpoint; temp-directory snapshots; trace validation")
 
 CHECKS["C20"] = dict(
     level="model_checking",
@@ -218,8 +224,8 @@ CHECKS["C20"] = dict(
 CHECKS["C09"] = dict(
     level="fault_enumeration",
     text="spec/Crypto.tla models the two commands stage by stage (choke point -> Encrypt -> base64 -> JSON leaf; key file -> base64 decode -> Decrypt "
-         "-> print) with the cipher axiomatised as a deterministic AEAD; TLC checks RoundTrip, NeverWrongPlaintext and NoPlaintextInOutput over 16 leaf "
-         "classes x 13 positions x {same, other key} x 11 alterations (flip first / middle / last byte, truncations, extension, base64 character, "
+         "-> print) with the cipher axiomatised as a deterministic AEAD; TLC checks RoundTrip, NeverWrongPlaintext, NoPlaintextInOutput and DecryptOnlyReads over 21 leaf "
+         "classes x 13 positions x 8 states of the decryption key path {same key, same with newline, other key, absent, empty, short, not base64, directory} x 11 alterations (flip first / middle / last byte, truncations, extension, base64 character, "
          "padding, empty, not base64). The scenarios are replayed end to end through `redact --encrypt` (fresh key files) and `decrypt`, the "
          "ciphertext taken from the exact leaf position of the real output; verdict: `Raw value:` equals the original byte for byte, or a "
          "non-zero exit without any plaintext. The axioms are tested on the real Encrypt / Decrypt: round trips up to 8 KiB, wrong keys, every "
